@@ -22,7 +22,7 @@ From Coq Require Import ZArith NArith List Bool.
 From PG Require Import Common.Tactics Model.SymCoreDefs Model.SymCoreOps Model.SymCoreSpec Model.SymCoreC02
      Proofs.SymCoreWF Proofs.SymCoreIds Proofs.SymCoreC02Base Proofs.SymCoreC02Read Proofs.SymCoreC02Frame Proofs.SymCoreC02Prim
      Proofs.SymCoreC02List Proofs.SymCoreC02Items Proofs.SymCoreC02Dict Proofs.SymCoreC02Step Proofs.SymCoreC02Ext Proofs.PyListFacts
-     Proofs.SymCoreC02Slice Proofs.SymCoreC02WF Proofs.SymCoreC02Or Proofs.SymCoreC02Rebind Proofs.SymCoreC02Nested Proofs.SymCoreC02Refs Proofs.SymCoreC02Examples Proofs.SymCoreC02Summary Proofs.SymCoreC02Init.
+     Proofs.SymCoreC02Slice Proofs.SymCoreC02WF Proofs.SymCoreC02Or Proofs.SymCoreC02Rebind Proofs.SymCoreC02Nested Proofs.SymCoreC02Refs Proofs.SymCoreC02RefStep Proofs.SymCoreC02Examples Proofs.SymCoreC02Summary Proofs.SymCoreC02Init.
 From PG Require Model.PyList Model.PyDict.
 Import ListNotations.
 Local Open Scope Z_scope.
@@ -143,6 +143,43 @@ Theorem C02_refines_python_append_reference_partial : forall q sc ps tid pa fl s
 Proof. exact exec_append_ref_refines. Qed.
 Print Assumptions C02_refines_python_append_reference_partial.
 
+(* l[i] = x, l.append(x), l.insert(i, x) where x is ANY value (a literal, a symbolic value with a parent, a root of another tree,
+   the list itself, an opaque object): the step is list's with what x denoted when the call started, error classes included.
+   [tag_agree]: `old is x` is decided on object identity, which the erasure does not keep for opaque objects; where the argument
+   is an opaque object already stored in the list, both occurrences have to carry the same tag (vacuous for every other argument). *)
+Theorem C02_refines_python_reference_arguments_list_partial : forall q sc ps tid pa fl st its o rv v lo st' out,
+  no_quirks q -> WFI st -> at_is st ps tid KList pa fl its -> clean its -> anc_clean st ps -> permits sc fl ->
+  ref_arg o = Some rv -> ref_value st rv v -> (forall k old, In (k, old) its -> tag_agree old rv) -> ref_lop o v = Some lo ->
+  exec q sc st ps tid KList (snd ps) fl its o = (st', out) ->
+  match py_lstep (evals its) lo with
+  | inr e => st' = st /\ out = Err (err_of e)
+  | inl (l', ret) => wrote_w ps tid pa fl st' l' /\ ret_agrees st' out ret
+  end.
+Proof. exact exec_list_ref_refines. Qed.
+Print Assumptions C02_refines_python_reference_arguments_list_partial.
+
+(* d[k] = x / d.k = x with any such argument *)
+Theorem C02_refines_python_reference_arguments_dict_partial : forall q sc ps tid pa fl st its a k rv v st' out,
+  no_quirks q -> WFI st -> at_is st ps tid KDict pa fl its -> clean its -> anc_clean st ps -> permits sc fl ->
+  ref_value st rv v -> (forall old, assoc k its = Some old -> tag_agree old rv) ->
+  exec q sc st ps tid KDict (snd ps) fl its (DSet a k rv) = (st', out) ->
+  out = Ok RNone /\ dwrote_w ps tid pa fl st' (PyDict.dset key_eqb k v (eitems its)).
+Proof. exact exec_dict_ref_refines. Qed.
+Print Assumptions C02_refines_python_reference_arguments_dict_partial.
+
+(* through [step], with the argument read from the list itself (l.append(l[0]), l[1] = l[0][2], l.insert(0, l)): on the Python
+   side the argument is what the path reads in the plain list at the time of the call ([rop_py]) *)
+Theorem C02_refines_python_self_reference_partial : forall q ps tid pa fl, no_quirks q -> forall st its sc r lo,
+  WFI st -> at_is st ps tid KList pa fl its -> clean its -> anc_clean st ps -> permits sc fl ->
+  rop_py (evals its) r = Some lo ->
+  exists its',
+    at_is (fst (step q st (mkSop sc ps (rop_model ps r)))) ps tid KList pa fl its' /\ clean its' /\
+    anc_clean (fst (step q st (mkSop sc ps (rop_model ps r)))) ps /\
+    evals its' = PyList.lstate pv_pyeq (evals its) lo /\
+    out_class (snd (step q st (mkSop sc ps (rop_model ps r)))) (py_lstep (evals its) lo).
+Proof. exact step_self_refines. Qed.
+Print Assumptions C02_refines_python_self_reference_partial.
+
 (* --- C02_history: every finite history on one container ---------------------------------------------------------------------- *)
 (* lists: base catalogue and slice operations interleaved in any order; [lhist2_ok] only says that every call has plain
    arguments and is let through; [lhist2_py] is the plain list driven by the same calls *)
@@ -159,6 +196,19 @@ Theorem C02_history_dict_partial : forall q ps tid pa fl, no_quirks q -> forall 
   wfs (run_ops q st (on_pos ps h)).
 Proof. exact c02_history_dict_proof. Qed.
 Print Assumptions C02_history_dict_partial.
+
+(* histories that mix the operations on plain arguments with writes whose argument is read from the list itself *)
+Theorem C02_history_self_references_partial : forall q ps tid pa fl, no_quirks q -> forall h st its,
+  WFI st -> at_is st ps tid KList pa fl its -> clean its -> anc_clean st ps -> rhist_ok fl (evals its) h ->
+  option_map erase (get_at (run_ops q st (on_pos_r ps h)) ps) = Some (plist (rhist_py (evals its) h)).
+Proof. exact history_self_erase. Qed.
+Print Assumptions C02_history_self_references_partial.
+Theorem C02_history_self_references_example :
+  rhist_ok default_flags (evals ex_list_items) ex_self_history /\
+  rhist_py (evals ex_list_items) ex_self_history =
+  [plist [PLeaf (LInt 2); ex_da; PLeaf (LStr [98%N]); ex_da]; PLeaf (LInt 2); PLeaf (LStr [98%N]); ex_da].
+Proof. exact ex_self_hypotheses. Qed.
+Print Assumptions C02_history_self_references_example.
 
 (* "for all initial contents": any constructed (unsealed) pg.List / pg.Dict, whatever its literal, under any such history *)
 Theorem C02_history_of_constructed_list_partial : forall q, no_quirks q -> forall fl lits h,
